@@ -34,12 +34,16 @@
   operation on the epoch / queue indices, a harness event, or the collector's sleep), so the same
   function drives the theorems (all interleavings = all label sequences) and the replay of real
   executions (`Drivers/C10.lean`).  Ghost fields (`log`, `dropped`, `consumed`, `popped`,
-  `pushAtStop`, `since`) never influence a non-ghost field or the enabledness of a step.
+  `pushAtStop`, `runBase`, `late`, `since`) never influence a non-ghost field or the enabledness of a step.
   (`headSeen`, `must`, `floor` are not ghost: they are the state of the two specifications above —
   what a running `try_pop_n` / `low_water_mark()` call is already committed to.)
   Client contract built into `step`: reclaimer ids are distinct (`callRetire` needs an unused id),
-  `retire(r, e)` gets an `e` some tick returned (`1 ≤ e ≤ gver`), `stop()` is called once, `start()`
-  was called (the collector exists from the initial state on).  `retire` concurrent with or after
+  `retire(r, e)` gets an `e` some tick returned (`1 ≤ e ≤ gver`), `stop()` is not called while another
+  `stop()` is in progress.  Life cycle: initially there is no collector thread (`cpc = off`); `retire`
+  works all the same (tasks wait in the queue, a full queue blocks); `start()` launches a fresh
+  `keep_reclaim` on the queue as it is; `stop()` on a running collector pushes the marker and joins, after
+  which the collector is off again and may be started again; `stop()` with no joinable thread returns at
+  once and invokes nothing (so does the destructor: whoever retires must start the collector).  `retire` concurrent with or after
   `stop()` is *not* excluded: such a task is queued behind the marker and the model does what the
   code does with it (skipped if popped in the marker's callback invocation, appended otherwise).
   Core Lean only.
@@ -109,13 +113,14 @@ def Lwm.le : Lwm → Lwm → Bool
 
 /-- program counter of the collector thread inside `keep_reclaim` -/
 inductive CPc
+  | off                          -- no collector thread (never started, or joined by `stop()`)
   | top                          -- at the `while` condition
   | pop1                         -- inside `try_pop_n`: first `try_deal_n_continuously`
   | pop2 (lim : Nat)             -- second one (after the ring wrapped), at most `lim` elements
   | preScan                      -- consume done, about to call `reclaim_start_from`
   | scan                         -- inside `low_water_mark()`
   | reclaim (m : Lwm) (cnt : Nat) -- walking the prefix with low water mark `m`, `cnt` reclaimed so far
-  | done                         -- `keep_reclaim` returned
+  | done                         -- `keep_reclaim` returned, thread not joined yet
   deriving DecidableEq, Repr, Inhabited
 
 /-- one invocation log entry: reclaimer `id` with epoch `e` was invoked in a pass that read `m` -/
@@ -151,13 +156,15 @@ structure State where
   consumed : List Task          -- every task ever moved into `tasks`, in order
   dropped : List Task           -- tasks popped in the same callback invocation behind a marker
   popped : List Item            -- every item ever popped, in order
-  pushAtStop : Option Nat       -- push index when `stop()` was called
+  pushAtStop : Option Nat       -- push index when `stop()` was (last) called
+  runBase : Nat                 -- number of items popped before the current / last collector thread started
+  late : List Nat               -- ids whose `retire` took its ticket while a `stop()` had its marker queued / was joining
 
 def State.init : State :=
   { gver := 0, nslots := 0, slots := fun _ => .idle, pushIdx := 0, popIdx := 0, cells := [],
-    calls := fun _ => .none, stop := .idle, cpc := .top, tasks := [], index := 0, running := true,
+    calls := fun _ => .none, stop := .idle, cpc := .off, tasks := [], index := 0, running := true,
     backoff := backoffInit, headSeen := false, must := [], floor := none, log := [], consumed := [], dropped := [],
-    popped := [], pushAtStop := none }
+    popped := [], pushAtStop := none, runBase := 0, late := [] }
 
 def upd {α : Type} (f : Nat → α) (i : Nat) (v : α) : Nat → α := fun j => if j = i then v else f j
 
@@ -176,6 +183,9 @@ inductive Lbl
   | enterRead (s : Nat)
   | enterPin (s : Nat)
   | leave (s : Nat)
+  -- life cycle
+  | start                            -- `start()`: launches the collector thread unless one is joinable
+  | stopNoop                         -- `stop()` / destructor with no joinable thread: returns at once
   -- stop
   | callStop
   | stopReserve
@@ -269,7 +279,11 @@ def stepWith (lc cc : State → Bool) (c : Cfg) (s : State) : Lbl → Option Sta
     match s.calls id with
     | .reserve e =>
       some { s with pushIdx := s.pushIdx + 1, cells := s.cells ++ [(.task ⟨id, e⟩, false)],
-                    calls := upd s.calls id (.publish e s.pushIdx) }
+                    calls := upd s.calls id (.publish e s.pushIdx),
+                    late := match s.stop with
+                      | .publish _ => id :: s.late
+                      | .join => id :: s.late
+                      | _ => s.late }
     | _ => none
   | .publish id =>
     match s.calls id with
@@ -293,9 +307,20 @@ def stepWith (lc cc : State → Bool) (c : Cfg) (s : State) : Lbl → Option Sta
     match s.slots i with
     | .pinned _ _ => some { s with slots := upd s.slots i .idle, must := s.must.filter (· ≠ i) }
     | _ => none
+  -- ---------------- life cycle
+  | .start =>
+    if s.cpc = .off then
+      -- a fresh `keep_reclaim`: its locals are new, the queue is whatever it is
+      some { s with cpc := .top, tasks := [], index := 0, running := true, backoff := backoffInit,
+                    headSeen := false, runBase := s.popped.length }
+    else some s
+  | .stopNoop =>
+    if s.cpc = .off ∧ (s.stop = .idle ∨ s.stop = .returned) then some s else none
   -- ---------------- stop
   | .callStop =>
-    if s.stop = .idle then some { s with stop := .reserve, pushAtStop := some s.pushIdx } else none
+    if (s.stop = .idle ∨ s.stop = .returned) ∧ s.cpc ≠ .off then
+      some { s with stop := .reserve, pushAtStop := some s.pushIdx }
+    else none
   | .stopReserve =>
     if s.stop = .reserve then
       some { s with pushIdx := s.pushIdx + 1, cells := s.cells ++ [(.marker, false)], stop := .publish s.pushIdx }
@@ -308,7 +333,7 @@ def stepWith (lc cc : State → Bool) (c : Cfg) (s : State) : Lbl → Option Sta
       else none
     | _ => none
   | .stopJoin =>
-    if s.stop = .join ∧ s.cpc = .done then some { s with stop := .returned } else none
+    if s.stop = .join ∧ s.cpc = .done then some { s with stop := .returned, cpc := .off } else none
   -- ---------------- collector
   | .consumeBegin =>
     if s.cpc = .top ∧ lc s ∧ cc s then
